@@ -308,9 +308,15 @@ def execute(spec, mon=None):
 
 def rand_subobs(rng, n, nobs):
     """nobs Pauli labels on n qubits: several commuting groups, identity, duplicates."""
-    mode = int(rng.integers(0, 5))
+    mode = int(rng.integers(0, 7))
     labs = []
-    if mode == 0:  # one Z/I family: a single group with up to n measured bits
+    if mode >= 5:  # every observable in its own basis on a shared qubit: as many groups as distinct observables
+        q = int(rng.integers(0, n))
+        for j in range(nobs):
+            base = list(rng.choice(list("IXYZ"), size=n))
+            base[q] = "XYZ"[j % 3] if j < 3 else str(rng.choice(list("XYZ")))
+            labs.append("".join(base))
+    elif mode == 0:  # one Z/I family: a single group with up to n measured bits
         for _ in range(nobs):
             labs.append("".join(rng.choice(list("IZ"), size=n, p=[0.3, 0.7])))
     elif mode == 1:  # fully random letters: several groups
@@ -348,11 +354,11 @@ def dyadic(rng, den_log, bound):
 def fmt_key(rng, o, width, fmt):
     if fmt == "int":
         return o
-    if fmt == "0b":
-        return "0b" + format(o, "b").zfill(int(rng.integers(1, width + 2)))
-    if fmt == "0x":
+    if fmt in ("0b", "0B"):
+        return fmt + format(o, "b").zfill(int(rng.integers(1, width + 2)))
+    if fmt in ("0x", "0X"):
         s = format(o, "x")
-        return "0x" + (s.upper() if rng.integers(0, 4) == 0 else s)
+        return fmt + (s.upper() if rng.integers(0, 4) == 0 else s)
     if fmt == "bin":
         return format(o, "b").zfill(width)
     if fmt == "bin_sp":  # binary with spaces (only reaches _outcome_to_int through a plain dict)
@@ -362,7 +368,7 @@ def fmt_key(rng, o, width, fmt):
     raise ValueError(fmt)
 
 
-def rand_v1(rng, nexp, nbits_of_exp, w):
+def rand_v1(rng, nexp, nbits_of_exp, w, den_log=6, bound=2):
     container = "quasi" if rng.integers(0, 5) < 3 else "dict"
     dists = []
     for e in range(nexp):
@@ -380,10 +386,10 @@ def rand_v1(rng, nexp, nbits_of_exp, w):
             f = ["int", "0b", "0x", "bin"][int(rng.integers(0, 4))]
             fmts = [f] * nout
         else:
-            fmts = [["int", "0b", "0x", "bin", "bin_sp"][int(rng.integers(0, 5))] for _ in range(nout)]
+            fmts = [["int", "0b", "0x", "bin", "bin_sp", "0B", "0X"][int(rng.integers(0, 7))] for _ in range(nout)]
         items = []
         for o, f in zip(sorted(outs, key=lambda _: rng.random()), fmts):
-            p = dyadic(rng, 6, 2)
+            p = dyadic(rng, den_log, bound)
             items.append([key_json(fmt_key(rng, o, width, f)), fr(p)])
             w.count("v1.key_format", f)
             w.count("v1.quasi_prob_sign", "neg" if p < 0 else "zero" if p == 0 else "pos")
@@ -394,14 +400,19 @@ def rand_v1(rng, nexp, nbits_of_exp, w):
     return dict(v=1, container=container, dists=dists)
 
 
-def rand_v2(rng, nexp, nbits_of_exp, w, tier):
+def rand_v2(rng, nexp, nbits_of_exp, w, tier, min_qpd=0, odd_shots=False):
     obs_bits, qpd_bits, pubs = [], [], []
-    nq = int(rng.integers(0, 13)) if rng.integers(0, 8) else 0
+    nq = int(rng.integers(min_qpd, 13)) if (min_qpd or rng.integers(0, 8)) else 0
     for e in range(nexp):
         nb = nbits_of_exp(e)
-        shots = 1 << int(rng.integers(0, 5 if tier == "quick" else 7))
-        if rng.integers(0, 40) == 0:
-            shots = 64
+        if odd_shots:
+            shots = int(rng.choice([3, 5, 6, 7, 10, 12, 100]))
+            if rng.integers(0, 25) == 0 and nexp <= 6:
+                shots = 1000
+        else:
+            shots = 1 << int(rng.integers(0, 5 if tier == "quick" else 7))
+            if rng.integers(0, 40) == 0:
+                shots = 64
         pubs.append([[int(rng.integers(0, 1 << nb)) | ((1 << (nb - 1)) if rng.integers(0, 3) == 0 else 0),
                       (int(rng.integers(0, 1 << nq)) | ((1 << (nq - 1)) if rng.integers(0, 3) == 0 else 0)) if nq else 0]
                      for _ in range(shots)])
@@ -410,7 +421,11 @@ def rand_v2(rng, nexp, nbits_of_exp, w, tier):
         w.count("v2.obs_bits", nb)
         w.count("v2.qpd_bits", nq)
         w.count("v2.shots", shots)
-    return dict(v=2, obs_bits=obs_bits, qpd_bits=qpd_bits, pubs=pubs)
+        w.count("v2.both_registers_cross_a_byte", nb >= 9 and nq >= 9)
+    order = "qpd_first" if rng.integers(0, 3) else "obs_first"
+    extra = bool(rng.integers(0, 4) == 0)
+    w.count("v2.databin_order", order + ("+extra" if extra else ""))
+    return dict(v=2, obs_bits=obs_bits, qpd_bits=qpd_bits, pubs=pubs, order=order, extra=extra)
 
 
 def v1_twin(d):
@@ -431,10 +446,16 @@ def groups_of(labels):
     return [max(1, len(g.pauli_indices)) for g in oc.groups]
 
 
-def gen_valid_spec(rng, w, tier, force_bits=None):
-    nparts = int(rng.integers(1, 4))
-    nobs = int(rng.integers(1, 5))
+def gen_valid_spec(rng, w, tier, force_bits=None, odd_shots=False):
+    """A well-formed spec.  Exactness of binary64 on it (not for odd_shots): every E is a multiple of 2^-b1 bounded by 2^b2
+    with b1+b2 <= 10 (<= 3 partitions) resp. 7 (4-5 partitions); coefficients are multiples of 1/8 bounded by 2; so every
+    intermediate product/sum needs at most 5*7+4+3 = 42 < 53 mantissa bits."""
+    nparts = int(rng.integers(1, 4)) if rng.integers(0, 5) else int(rng.integers(4, 6))
+    nobs = int(rng.integers(1, 5)) if rng.integers(0, 5) else int(rng.integers(5, 7))
     ncoeff = int(rng.integers(1, 7))
+    if nparts >= 4:
+        ncoeff = min(ncoeff, 3)
+    den_log, bound = (6, 2) if nparts <= 3 else (4, 1)
     coeffs = []
     for _ in range(ncoeff):
         c = dyadic(rng, 3, 2)
@@ -458,13 +479,13 @@ def gen_valid_spec(rng, w, tier, force_bits=None):
         nbs = groups_of(labs)
         G = len(nbs)
         nexp = ncoeff * G
-        if rng.integers(0, 2):
-            d = rand_v1(rng, nexp, lambda e: nbs[e % G], w)
-            t = d
-        else:
-            d = rand_v2(rng, nexp, lambda e: nbs[e % G], w, tier)
+        if odd_shots or rng.integers(0, 2) == 0:
+            d = rand_v2(rng, nexp, lambda e: nbs[e % G], w, tier, min_qpd=9 if force_bits else 0, odd_shots=odd_shots)
             t = v1_twin(d)
             any_v2 = True
+        else:
+            d = rand_v1(rng, nexp, lambda e: nbs[e % G], w, den_log, bound)
+            t = d
         obs_items.append([tagged(l), [[0, s] for s in labs]])
         res_items.append([tagged(l), d])
         twin_items.append([tagged(l), t])
@@ -474,14 +495,24 @@ def gen_valid_spec(rng, w, tier, force_bits=None):
     w.count("nobs", nobs)
     w.count("ncoeff", ncoeff)
     w.count("call_form", form)
+    cc = "tuple" if rng.integers(0, 4) == 0 else "list"
     if form == "list":
         spec = dict(kind="reconstruct", obs=dict(type="paulilist", paulis=obs_items[0][1]),
-                    results=dict(type="leaf", data=res_items[0][1]), coeffs=coeffs)
+                    results=dict(type="leaf", data=res_items[0][1]), coeffs=coeffs, coeff_container=cc)
         twin = dict(spec, results=dict(type="leaf", data=twin_items[0][1]))
     else:
-        spec = dict(kind="reconstruct", obs=dict(type="map", items=obs_items),
-                    results=dict(type="map", items=res_items), coeffs=coeffs)
-        twin = dict(spec, results=dict(type="map", items=twin_items))
+        # the results dict is ordered independently of the observables dict
+        perm = [int(i) for i in rng.permutation(nparts)] if rng.integers(0, 2) else list(range(nparts))
+        w.count("results_dict_order", "same" if perm == sorted(perm) else "permuted")
+        maps = ["dict", "dict", "ordered", "proxy"]
+        om, rm = maps[int(rng.integers(0, 4))], maps[int(rng.integers(0, 4))]
+        w.count("mapping_types", om + "/" + rm)
+        spec = dict(kind="reconstruct", obs=dict(type="map", items=obs_items, mapping=om),
+                    results=dict(type="map", items=[res_items[i] for i in perm], mapping=rm), coeffs=coeffs, coeff_container=cc)
+        twin = dict(spec, results=dict(type="map", items=[twin_items[i] for i in perm], mapping=rm))
+    if odd_shots:
+        spec["exact"] = False
+        twin["exact"] = False
     return spec, (twin if any_v2 else None)
 
 
@@ -497,18 +528,25 @@ def corrupt(rng, spec, w):
         return [r["data"]] if r["type"] == "leaf" else [d for _, d in r["items"]]
 
     if kind == "count":
-        d = datas()[int(rng.integers(0, len(datas())))]
+        ds = datas()
+        d = ds[int(rng.integers(0, len(ds)))]
         seq = d["dists"] if d["v"] == 1 else d["pubs"]
-        if rng.integers(0, 2) and len(seq) > 0:
-            seq.pop(int(rng.integers(0, len(seq))))
-            if d["v"] == 2:
-                d["obs_bits"].pop()
-                d["qpd_bits"].pop()
+        cols = [seq] + ([d["obs_bits"], d["qpd_bits"]] if d["v"] == 2 else [])
+        ncoeff = max(1, len(s["coeffs"]))
+        G = max(1, len(seq) // ncoeff)
+        how = ["drop1", "add1", "dropG", "addG", "double"][int(rng.integers(0, 5))]
+        if how in ("drop1", "dropG") and len(seq) > 0:
+            for _ in range(min(len(seq), 1 if how == "drop1" else G)):
+                j = int(rng.integers(0, len(seq)))
+                for c in cols:  # the same index from the data and from both width lists
+                    c.pop(j)
         else:
-            seq.append(seq[0] if seq else [])
-            if d["v"] == 2:
-                d["obs_bits"].append(d["obs_bits"][0] if d["obs_bits"] else 1)
-                d["qpd_bits"].append(d["qpd_bits"][0] if d["qpd_bits"] else 1)
+            L0 = len(seq)
+            extra = 1 if how in ("add1", "drop1") else G if how in ("addG", "dropG") else max(1, L0)
+            for t in range(extra):  # duplicate existing experiments (same index in all three lists)
+                for c in cols:
+                    c.append(c[t % L0] if L0 else ([] if c is seq else 1))
+        w.count("malformed.count_how", how)
     elif kind == "phase":
         pls = [s["obs"]["paulis"]] if s["obs"]["type"] == "paulilist" else [ps for _, ps in s["obs"]["items"]]
         pl = pls[int(rng.integers(0, len(pls)))]
@@ -586,13 +624,33 @@ def pyint0_canon(s):
 # generate
 # ----------------------------------------------------------------------------------------------
 
-def add_reconstruct(w, group, spec, mon, nontrivial_if_ok=True, extra=None):
+def add_cog(w, general, members, impl_idx, impl_masks, nontrivial=True):
+    w.add("cog", "chk_cog", (letters(general), [letters(m) for m in members], list(impl_idx), [Nc(m) for m in impl_masks]),
+          dict(kind="cog", general=general, members=members, impl=[list(impl_idx), list(impl_masks)]),
+          nontrivial=nontrivial and "I" in general.lstrip("I"))
+    n = len(general)
+    gap = any(general[n - 1 - q] == "I" and any(general[n - 1 - r] != "I" for r in range(q + 1, n)) for q in range(n))
+    w.count("cog.general_has_gap_below_a_measured_qubit", gap)
+
+
+def add_reconstruct(w, group, spec, mon, nontrivial_if_ok=True, extra=None, checker="chk_reconstruct", side=False):
     impl, case, aux = execute(spec, mon)
     js = dict(spec, impl=impl, aux=aux)
     if extra:
         js.update(extra)
-    w.add(group, "chk_reconstruct", case, js, nontrivial=(impl[0] == "ok" and nontrivial_if_ok))
+    w.add(group, checker, case, js, nontrivial=(impl[0] == "ok" and nontrivial_if_ok))
     w.count(group + ".outcome", impl[0])
+    if side:  # the real masks / lookup of every partition of this case against the letters
+        for a in aux.get("parts", []):
+            if not a.get("groups"):
+                continue
+            for g in a["groups"]:
+                add_cog(w, g["general"], g["members"], g["impl_indices"], g["impl_masks"])
+            gl = [(letters(g["general"]), [letters(m) for m in g["members"]]) for g in a["groups"]]
+            w.add("lookup", "chk_lookup", (gl, [letters(x) for x in a["subobs"]], [list(map(tuple, l)) for l in a["impl_lookup"]]),
+                  dict(kind="lookup", groups=[dict(general=g["general"], members=g["members"]) for g in a["groups"]],
+                       subobs=a["subobs"], impl=a["impl_lookup"]),
+                  nontrivial=len(a["groups"]) > 1)
     return impl, js
 
 
@@ -605,6 +663,7 @@ def generate(rng, tier, outdir):
     n_bad = 150 if quick else 1500
     n_keys = 600 if quick else 6000
     n_proc = 400 if quick else 5000
+    n_tol = 40 if quick else 500
 
     # ---- valid stream (+ V1 twins of every case that contains V2 data) ----
     valid_specs = []
@@ -614,8 +673,14 @@ def generate(rng, tier, outdir):
         twin_impl = None
         if twin is not None:
             twin_impl, _ = add_reconstruct(w, "reconstruct_twin", twin, mon, extra=dict(twin_of=it))
-        add_reconstruct(w, "reconstruct", spec, mon,
+        add_reconstruct(w, "reconstruct", spec, mon, side=(it % 3 == 0),
                         extra=dict(twin=twin, twin_impl=twin_impl) if twin is not None else None)
+
+    # ---- shot counts that are not powers of two: binary64 is inexact, compared within 1e-9 ----
+    for it in range(n_tol):
+        spec, twin = gen_valid_spec(rng, w, tier, odd_shots=True)
+        twin_impl, _ = add_reconstruct(w, "reconstruct_tol", twin, mon, checker="chk_reconstruct_tol", extra=dict(twin_of=it))
+        add_reconstruct(w, "reconstruct_tol", spec, mon, checker="chk_reconstruct_tol", extra=dict(twin=twin, twin_impl=twin_impl))
 
     # ---- malformed stream ----
     for it in range(n_bad):
@@ -657,7 +722,7 @@ def generate(rng, tier, outdir):
         qp = int(rng.integers(0, 1 << nq)) | ((1 << (nq - 1)) if nq and rng.integers(0, 2) else 0)
         if it % 2 == 0:
             o = (qp << nb) | ob
-            f = ["int", "0b", "0x", "bin", "bin_sp"][int(rng.integers(0, 5))]
+            f = ["int", "0b", "0x", "bin", "bin_sp", "0B", "0X"][int(rng.integers(0, 7))]
             k = fmt_key(rng, o, nb + nq, f)
             r = call_canon(_process_outcome, cog, k)
             exp = Res("ok", [Zc(int(x)) for x in r[1]]) if r[0] == "ok" else Res(r[0])
@@ -682,18 +747,37 @@ def generate(rng, tier, outdir):
                   dict(kind="from_bytes", row=row, impl=v), nontrivial=len(row) > 1)
         w.count("process.measured_bits", nb)
         w.count("process.qpd_bits", nq)
+        add_cog(w, g, subs, [int(i) for i in cog.pauli_indices], [int(m) for m in cog.pauli_bitmasks])
+
+    # ---- the property-level oracle must accept every case of an unchanged tree (false-alarm monitor) ----
+    allc = [js for g in w.groups.values() for _, js in g["cases"]]
+    step = 1 if quick else max(1, len(allc) // 3000)
+    for js in allc[::step]:
+        try:
+            v = judge(js)
+        except Exception as e:  # noqa: BLE001
+            v = dict(violates=True, detail=f"judge raised {type(e).__name__}: {e}")
+        w.contract("judge_accepts_clean_case", not v.get("violates"))
+        if v.get("violates") and len(w.notes) < 5:
+            w.notes.append(f"judge flags a generated case ({js.get('kind')}): {v.get('detail')}"[:400])
 
     return w.finish(
-        rule="reconstruct: 1-3 partitions with exotic labels (dict form, or the bare PauliList form for one partition), 1-4 "
-        "observables per partition on 1-12 qubits drawn from 5 families (one Z/I family, random letters = several commuting groups, "
-        "restrictions of two dense general observables, identity-heavy, one dense all-measured observable) with forced identity / "
-        "duplicate entries, 1-6 dyadic coefficients of either sign, per partition V1 (QuasiDistribution or plain dict; int, 0b, 0x, "
-        "binary and spaced-binary keys; 0-12 QPD bits; dyadic quasi-probabilities of either sign) or V2 (BitArray, 1-64 shots, 0-12 QPD "
-        "bits, register = measured bits); every case holding V2 data is also run on the equivalent V1 data (twin). malformed: count / "
+        rule="reconstruct: 1-5 partitions with exotic labels (dict form with independently ordered results dict, dict / OrderedDict / "
+        "MappingProxyType containers, list or tuple coefficients; or the bare PauliList form for one partition), 1-6 observables per "
+        "partition on 1-12 qubits drawn from 6 families (one Z/I family, random letters, restrictions of two dense general "
+        "observables, identity-heavy, one dense all-measured observable, one-basis-per-observable = many groups) with forced identity / "
+        "duplicate entries, 1-6 dyadic coefficients of either sign, per partition V1 (QuasiDistribution or plain dict; int, 0b, 0B, 0x, 0X, "
+        "binary and spaced-binary keys; 0-12 QPD bits; dyadic quasi-probabilities of either sign) or V2 (BitArray via from_samples, "
+        "1-64 shots, 0-12 QPD bits, DataBin with qpd_measurements first or second and sometimes an unrelated extra register; every "
+        "11th case has 12-qubit partitions with >= 9 QPD bits); every case holding V2 data is also run on the equivalent V1 data (twin). "
+        "reconstruct_tol: the same with 3..1000 shots (not powers of two), compared within 1e-9. malformed: count (+-1, +-#groups, x2) / "
         "phase / type / key-set / unparsable-key defects injected into valid specs. Direct streams for _outcome_to_int, int(s,0), "
-        "_process_outcome, _process_outcome_v2 and the big-endian row read. groups/bitmasks/lookup are read from the real "
-        "ObservableCollection. distinct = distinct Coq case literal; non-trivial = successful call (reconstruct), string key, "
-        "non-empty measured set",
+        "_process_outcome, _process_outcome_v2, the big-endian row read, CommutingObservableGroup masks (cog) and "
+        "ObservableCollection.lookup (lookup). The model is fed Pauli LETTERS (group membership and general observable from the real "
+        "ObservableCollection); masks, measured qubits and lookup are recomputed by the model and compared with the real ones. "
+        "judge() is run on every generated case (monitor judge_accepts_clean_case). distinct = distinct Coq case literal; "
+        "non-trivial = successful call (reconstruct), string key, non-empty measured set, gap in the general observable (cog), "
+        ">1 group (lookup)",
     )
 
 
@@ -797,13 +881,15 @@ def judge_reconstruct(case):
     got = [unfr(x) for x in impl[1]]
     if len(got) != len(ref):
         return dict(violates=True, detail=f"length {len(got)} != {len(ref)}")
-    bad = [k for k in range(nobs) if got[k] != ref[k]]
-    if bad and all(abs(got[k] - ref[k]) <= Fraction(1, 10**9) for k in bad):
-        return dict(violates=False, detail=f"differs only by float rounding at {bad} (rounding is out of scope)")
+    tol = Fraction(0) if case.get("exact", True) else Fraction(1, 10**9)  # dyadic data: binary64 is exact, compare exactly
+    bad = [k for k in range(nobs) if abs(got[k] - ref[k]) > tol]
     if bad:
         return dict(violates=True, detail=f"observable {bad[0]}: estimator {ref[bad[0]]} but implementation returned {got[bad[0]]}")
-    if case.get("twin_impl") is not None and case["twin_impl"] != impl:
-        return dict(violates=True, detail=f"V2 data gave {impl} but the equivalent V1 data gave {case['twin_impl']}")
+    ti = case.get("twin_impl")
+    if ti is not None:
+        same = ti[0] == "ok" and len(ti[1]) == len(got) and all(abs(unfr(a) - b) <= tol for a, b in zip(ti[1], got))
+        if not same:
+            return dict(violates=True, detail=f"V2 data gave {impl} but the equivalent V1 data gave {ti}")
     return dict(violates=False, detail="matches the reference estimator" + (" and its V1 twin" if case.get("twin_impl") else ""))
 
 
@@ -838,6 +924,15 @@ def judge(case):
         got = case["impl"][1] if k == "process_outcome" else case["impl"]
         ok = (case["impl"][0] == "ok" and got == want) if k == "process_outcome" else got == want
         return dict(violates=not ok, detail=f"want {want} got {case['impl']}")
+    if k == "cog":
+        idx, masks = derive_cog(case["general"], case["members"])
+        ok = case["impl"] == [idx, masks]
+        return dict(violates=not ok, detail=f"general {case['general']} members {case['members']}: measured qubits / masks should be "
+                                            f"{[idx, masks]}, implementation has {case['impl']}")
+    if k == "lookup":
+        want = [[list(t) for t in derive_lookup(case["groups"], x)] for x in case["subobs"]]
+        got = [[list(t) for t in l] for l in case["impl"]]
+        return dict(violates=want != got, detail=f"lookup should be {want}, implementation has {got}")
     if k == "from_bytes":
         want = 0
         for b in case["row"]:
@@ -868,4 +963,12 @@ def rerun(case):
             case["impl"] = [int(x) for x in _process_outcome_v2(cog, case["obs"], case["qpd"])]
     elif k == "from_bytes":
         case["impl"] = int.from_bytes(bytes(case["row"]), "big")
+    elif k == "cog":
+        cog = CommutingObservableGroup(Pauli(case["general"]), [Pauli(s) for s in case["members"]])
+        case["impl"] = [[int(i) for i in cog.pauli_indices], [int(m) for m in cog.pauli_bitmasks]]
+    elif k == "lookup":
+        oc = ObservableCollection(PauliList(case["subobs"]))
+        case["groups"] = [dict(general=g.general_observable.to_label(), members=[p.to_label() for p in g.commuting_observables])
+                          for g in oc.groups]
+        case["impl"] = [[[int(m), int(n)] for m, n in oc.lookup[Pauli(x)]] for x in case["subobs"]]
     return case
